@@ -54,20 +54,30 @@ Mech_intended ==
     exoReader        |-> "all_blocks",
     fileFill         |-> "encoding_dropped" ]  \* a grid read from a file does not keep the file's fill value in the variable's encoding
 
-\* as read in /repo (d3a60c34, ef0ca9d1, e3484517, ea0c8869 are in)
+\* as read in /repo now (d3a60c34, ef0ca9d1, e3484517, ea0c8869, 7ad7d162, b64583c9 and the five
+\* C07 repairs 85394185, 755d0493, 6b5a0114, 5f78d30f, e9051200 are in)
 Mech_observed ==
   [ topoTemplate     |-> "copied",
     edgeNodeTemplate |-> "copied",
-    ugridExport      |-> "new_dataset",       \* since 7ad7d162 (before: _encode_ugrid(self._ds) returned _ds itself unless it held a grid_topology)
-    helperAttrs      |-> "in_attrs",          \* inverse_indices / fill_value_mask ndarrays; IntervalIndex + DataFrame on bounds
-    ugridNodeCoords  |-> "as_present",        \* names node_lon node_lat whether or not they were ever materialised
-    scripPad         |-> "index_with_fill",
-    exoFillTest      |-> "minus_one",
-    exoBlockStart    |-> "assign",
+    ugridExport      |-> "new_dataset",         \* 7ad7d162: _encode_ugrid works on a deep copy
+    helperAttrs      |-> "stripped_on_export",  \* 85394185: Grid._ds still keeps the side tables in attrs, the encoder drops them from its copy
+    ugridNodeCoords  |-> "ensured",             \* 755d0493: to_xarray / encode_as touch node_lon, node_lat first
+    scripPad         |-> "repeat_last",         \* 6b5a0114
+    exoFillTest      |-> "fill_value",          \* 5f78d30f
+    exoBlockStart    |-> "accumulate",          \* 5f78d30f
     exoUnits         |-> "converted",
     exoChunked       |-> "values",
-    exoReader        |-> "all_blocks",        \* since b64583c9 (before: only the last connectN survived)
-    fileFill         |-> "attrs_and_encoding" ]  \* _standardize_connectivity sets attrs["_FillValue"], the source's stays in .encoding
+    exoReader        |-> "all_blocks",          \* b64583c9
+    fileFill         |-> "encoding_dropped" ]   \* e9051200
+
+\* the code as it was when this check was built (before the five C07 repairs): kept so that the
+\* "model tells the difference" runs always have a mechanism to refute
+Mech_before_c07_repairs ==
+  [ Mech_observed EXCEPT !.helperAttrs = "in_attrs",           \* ndarray side tables / IntervalIndex + DataFrame reach the export
+                         !.ugridNodeCoords = "as_present",     \* names node_lon node_lat whether or not they were ever materialised
+                         !.scripPad = "index_with_fill",
+                         !.exoFillTest = "minus_one", !.exoBlockStart = "assign",
+                         !.fileFill = "attrs_and_encoding" ]   \* attrs["_FillValue"] set, the source's stays in .encoding
 
 MechOf(n) ==
   CASE n = "intended"     -> Mech_intended
@@ -76,6 +86,12 @@ MechOf(n) ==
     [] n = "rev_ef0ca9d1" -> [ Mech_observed EXCEPT !.topoTemplate = "shared" ]
     [] n = "rev_e3484517" -> [ Mech_observed EXCEPT !.exoUnits = "raw" ]
     [] n = "rev_ea0c8869" -> [ Mech_observed EXCEPT !.exoChunked = "data" ]
+    [] n = "rev_85394185" -> [ Mech_observed EXCEPT !.helperAttrs = "in_attrs" ]
+    [] n = "rev_755d0493" -> [ Mech_observed EXCEPT !.ugridNodeCoords = "as_present" ]
+    [] n = "rev_6b5a0114" -> [ Mech_observed EXCEPT !.scripPad = "index_with_fill" ]
+    [] n = "rev_5f78d30f" -> [ Mech_observed EXCEPT !.exoFillTest = "minus_one", !.exoBlockStart = "assign" ]
+    [] n = "rev_e9051200" -> [ Mech_observed EXCEPT !.fileFill = "attrs_and_encoding" ]
+    [] n = "before_c07_repairs" -> Mech_before_c07_repairs
     \* single departures from the intended mechanism: each must break an invariant (model sensitivity)
     [] n = "only_alias"     -> [ Mech_intended EXCEPT !.ugridExport = "internal_dataset", !.helperAttrs = "in_attrs" ]
     [] n = "only_helper"    -> [ Mech_intended EXCEPT !.helperAttrs = "in_attrs" ]
@@ -275,7 +291,7 @@ TypeOK ==
 (* ---- outcomes under Mech (model checking and generation) -------------------- *)
 Derives(g, a, what) == what \in Need(a) /\ what \notin grid[g].store
 HelperAfter(g, a) ==
-  grid[g].helper \cup (IF Mech.helperAttrs = "in_attrs"
+  grid[g].helper \cup (IF Mech.helperAttrs \in { "in_attrs", "stripped_on_export" }
                        THEN { v \in { ENC, "bounds" } : Derives(g, a, v) } ELSE {})
 OutOpen(g) ==
   [ store  |-> SrcStore(desc[g].route),
@@ -293,6 +309,8 @@ OutAccess(g, a) ==
 OutChunk(g) ==
   [ store |-> grid[g].store, helper |-> grid[g].helper, tT |-> tmplTopo, tE |-> tmplEdge, ex |-> exports ]
 
+\* what of the grid's unstorable attributes reaches a UGRID export
+ExportedHelper(h) == IF Mech.helperAttrs = "stripped_on_export" THEN h \ { ENC, "bounds" } ELSE h
 OutUgrid(g) ==
   LET st0   == grid[g].store
       st1   == st0 \cup (IF Mech.ugridNodeCoords = "ensured" THEN NodeLL ELSE {})
@@ -303,7 +321,7 @@ OutUgrid(g) ==
       st2   == IF alias THEN st1 \cup { TOPO } ELSE st1
   IN [ status |-> "ok", vars |-> vs,
        names  |-> own \cup (IF sh THEN tmplTopo ELSE {}),
-       helper |-> grid[g].helper, alias |-> alias,
+       helper |-> ExportedHelper(grid[g].helper), alias |-> alias,
        enc    |-> EncUgrid(mesh[g], NodeLL \subseteq st1),
        store  |-> st2, gh |-> grid[g].helper,
        tT |-> IF sh THEN tmplTopo \cup (own \ UgridBase) ELSE tmplTopo, tE |-> tmplEdge,
